@@ -43,6 +43,9 @@ type OpProfile struct {
 	ForceName      string  // operation name to use (always sent as operationName)
 	HostileStrings bool    // string literals / variable values with quotes, backslashes, unicode, control characters
 	Pool           int     // id pool size for node roots
+	PVarNamedID    float64 // a String/ID variable is named `id` (the name the gateway uses itself) and holds an object id
+	PNodeSecond    float64 // a root node selection carries a fragment on a second entity type (default 0.2)
+	ForceNodeRoot  bool    // the operation starts with a root node selection
 	PMirror        float64 // select one root field twice (aliases m1/m2) with near-identical sub-selections
 	IDStyle        int
 }
@@ -69,8 +72,9 @@ type opGen struct {
 	nfrag int
 	// mirror mode: the second copy of a mirrored root field replays the same random stream;
 	// mr (a separate stream) decides where it deviates (explicit id flipped, a sub-field dropped)
-	mirror bool
-	mr     *rand.Rand
+	mirror    bool
+	mr        *rand.Rand
+	idVarUsed bool
 }
 
 func (g *opGen) tag(t string) { g.tags[t] = true }
@@ -173,6 +177,12 @@ func (g *opGen) rootSelection(root *ast.Definition, kw string) string {
 	}
 	var parts []string
 	usedKeys := map[string]bool{}
+	if kw == "query" && g.p.ForceNodeRoot && root.Fields.ForName("node") != nil {
+		if s := g.nodeRoot(usedKeys); s != "" {
+			parts = append(parts, s)
+			n--
+		}
+	}
 	if kw == "query" && g.p.PMirror > 0 && g.chance(g.p.PMirror) {
 		if s := g.mirrorRoot(root, fields); s != "" {
 			usedKeys["m1"], usedKeys["m2"] = true, true
@@ -304,7 +314,11 @@ func (g *opGen) nodeRoot(usedKeys map[string]bool) string {
 	}
 	frag := "... on " + t.Name + " " + g.selectionSet(t, g.p.Depth-1)
 	inner = append(inner, frag)
-	if g.chance(0.2) && len(ents) > 1 {
+	p2 := g.p.PNodeSecond
+	if p2 == 0 {
+		p2 = 0.2
+	}
+	if g.chance(p2) && len(ents) > 1 {
 		t2 := pick(g.r, ents)
 		if t2.Name != t.Name {
 			inner = append(inner, "... on "+t2.Name+" "+g.selectionSet(t2, g.p.Depth-2))
@@ -407,6 +421,23 @@ func (g *opGen) variableFor(t *ast.Type) string {
 		g.tag("var-default")
 	}
 	_ = lit
+	if base := g.s.Types[t.Name()]; t.Elem == nil && base != nil && (base.Name == "ID" || base.Name == "String") && !g.idVarUsed && g.chance(g.p.PVarNamedID) {
+		// the variable name the gateway uses for its own object lookups, holding an id that resolves
+		g.idVarUsed = true
+		ets := g.entityTypes()
+		tn := "Thing"
+		if len(ets) > 0 {
+			tn = pick(g.r, ets).Name
+		}
+		pool := g.p.Pool
+		if pool <= 0 {
+			pool = 3
+		}
+		g.vars = append(g.vars, varDecl{"id", typ, ""})
+		g.vals["id"] = MakeIDStyle(g.p.IDStyle, tn, g.r.Intn(pool))
+		g.tag("var-named-id")
+		return "$id"
+	}
 	v := g.newVar(typ, def)
 	switch {
 	case !nonNull && g.chance(g.p.PVarOmit):
